@@ -831,8 +831,12 @@ def splice_same_kind(ctx, rep, rule):
                     rep.ok(rule, cons, f"`{ast.unparse(c)}`", f"{m.path}:{c.lineno}")
                 else:
                     rep.violation(rule, cons, f"`{ast.unparse(c)}` compares different properties of the two blocks: a parallel block returned for a macro call in a sequential parent is dissolved into it (its gates run one after the other) or a sequential one is not", f"{m.path}:{c.lineno}")
+    if n == 0:
+        raise AnalysisError(f"{rule}: no splice test found in either expander (anchor vanished)")
     if n < 2:
-        raise AnalysisError(f"{rule}: only {n} splice tests found")
+        # one of the two handlers no longer compares the kinds in the recognised form: not this clause's business to
+        # judge (the conjunct clause C04.14 / C13.27 reports a splice test without the kind comparison)
+        rep.undecided(rule, "core.algorithm.expand_macros:visit_BlockStatement:splice-kind", f"only {n} of the two splice tests has the form `<child>.parallel == <parent>.parallel`")
 
 
 def count_kind_polarity(ctx, rep, rule):
